@@ -164,10 +164,18 @@ public:
     static long n = 0;
     return n;
   }
+  // memory size of the NEXT instance to be created (0 = the whole slot): an object that is destroyed and created again can
+  // come back with another size, like a production sandbox loaded with another heap limit
+  static uint64_t& next_mem_limit()
+  {
+    static uint64_t n = 0;
+    return n;
+  }
 
 
   // ---- harness-visible state (this is harness code, so public on purpose) ------------------
   uintptr_t base = 0;
+  uint64_t mem_limit = kSize; // accessible bytes of this incarnation (<= kSize)
   int index = -1;
   int lib = 0;
   uint64_t brk = 16;
@@ -243,6 +251,7 @@ protected:
     if (!ok) return false;
     index = idx;
     lib = library;
+    mem_limit = next_mem_limit() && next_mem_limit() <= kSize ? next_mem_limit() : kSize;
 #ifdef MBOX_DYNAMIC_ADDR
     {
       size_t len = (size_t)kSize * 2 + 2 * kPage;
@@ -302,7 +311,15 @@ protected:
     if constexpr (std::is_function_v<std::remove_pointer_t<T>>) {
       return const_cast<void*>(rep_to_fn((uint64_t)p));
     } else {
+#ifdef MBOX_UNCONFINED
+      // a backend whose with-context translation is plain base + representation (like the repository's own test backend): a
+      // representation beyond the region designates application memory. Only for partitions that exercise checks the
+      // library itself makes on a translated pointer (allocation results); everywhere else such a backend breaks confinement
+      // by itself.
+      return reinterpret_cast<void*>(base + (uint64_t)p);
+#else
       return reinterpret_cast<void*>(base + ((uint64_t)p & kMask));
+#endif
     }
   }
 
@@ -368,10 +385,10 @@ protected:
     if (!mapping) __atomic_add_fetch(&dead_queries(), 1, __ATOMIC_RELAXED);
     MBOX_YIELD("in_sandbox");
     auto a = reinterpret_cast<uintptr_t>(p);
-    return base != 0 && a >= base && a - base < kSize;
+    return base != 0 && a >= base && a - base < mem_limit;
   }
   inline bool impl_is_pointer_in_app_memory(const void* p) { return !impl_is_pointer_in_sandbox_memory(p); }
-  inline size_t impl_get_total_memory() { return (size_t)kSize; }
+  inline size_t impl_get_total_memory() { return (size_t)mem_limit; }
   inline void* impl_get_memory_location() { return reinterpret_cast<void*>(base); }
 
   void* impl_lookup_symbol(const char* func_name)
